@@ -328,17 +328,19 @@ Qed.
    (tpl) or as the name-keyed map texture_vec_to_map builds (bch, ctpk, cgfx) *)
 Theorem e2e_read_ctpk mc md S p loc f texs S' :
   write_file mc S p f loc = (S', FOk tt) -> wfb f -> lenN f < 2 ^ 24 -> TexFormat.conforms_ctpk f texs ->
+  Forall f32_exact texs ->
   read_ctpk_textures md S' p loc = lift_parse (as_map (decode_all (decode_tex md) texs)).
 Proof.
-  intros H Hw Hn Hc. destruct (typed_reads_after_write mc md S p f loc S' H Hw Hn) as (_ & _ & _ & _ & _ & _ & _ & R & _).
-  rewrite R, (TexCtpk.read_ctpk_correct md f texs Hc). reflexivity.
+  intros H Hw Hn Hc Hx. destruct (typed_reads_after_write mc md S p f loc S' H Hw Hn) as (_ & _ & _ & _ & _ & _ & _ & R & _).
+  rewrite R, (TexCtpk.read_ctpk_correct md f texs Hc Hx). reflexivity.
 Qed.
 Theorem e2e_read_bch mc md S p loc f texs S' :
   write_file mc S p f loc = (S', FOk tt) -> wfb f -> lenN f < 2 ^ 24 -> TexFormat.conforms_bch f texs ->
+  Forall f32_exact texs ->
   read_bch_textures md S' p loc = lift_parse (as_map (decode_all (decode_tex md) texs)).
 Proof.
-  intros H Hw Hn Hc. destruct (typed_reads_after_write mc md S p f loc S' H Hw Hn) as (_ & _ & _ & _ & _ & _ & R & _).
-  rewrite R, (TexBch.read_bch_correct md f texs Hc). reflexivity.
+  intros H Hw Hn Hc Hx. destruct (typed_reads_after_write mc md S p f loc S' H Hw Hn) as (_ & _ & _ & _ & _ & _ & R & _).
+  rewrite R, (TexBch.read_bch_correct md f texs Hc Hx). reflexivity.
 Qed.
 Theorem e2e_read_cgfx mc md S p loc f texs S' :
   write_file mc S p f loc = (S', FOk tt) -> wfb f -> lenN f < 2 ^ 24 -> TexFormat.conforms_cgfx f texs ->
@@ -358,9 +360,9 @@ Qed.
 (* on the supported textures (C19's formats) every decoding succeeds: the packed textures, decoded, in order / by name *)
 Theorem e2e_read_textures_supported mc md S p loc f texs S' :
   write_file mc S p f loc = (S', FOk tt) -> wfb f -> lenN f < 2 ^ 24 ->
-  (TexFormat.conforms_ctpk f texs -> Forall TexDecode.supported3ds texs ->
+  (TexFormat.conforms_ctpk f texs -> Forall TexDecode.supported3ds_f32 texs ->
      read_ctpk_textures md S' p loc = FOk (TexMap (tex_map (map TexDecode.decoded texs)))) /\
-  (TexFormat.conforms_bch f texs -> Forall TexDecode.supported3ds texs ->
+  (TexFormat.conforms_bch f texs -> Forall TexDecode.supported3ds_f32 texs ->
      read_bch_textures md S' p loc = FOk (TexMap (tex_map (map TexDecode.decoded texs)))) /\
   (TexFormat.conforms_cgfx f texs -> Forall TexDecode.supported3ds texs ->
      read_cgfx_textures md S' p loc = FOk (TexMap (tex_map (map TexDecode.decoded texs)))) /\
@@ -368,8 +370,10 @@ Theorem e2e_read_textures_supported mc md S p loc f texs S' :
      read_tpl_textures md S' p loc = FOk (TexVec (map TexDecode.tpl_decoded texs))).
 Proof.
   intros H Hw Hn. repeat split; intros Hc Hs.
-  - rewrite (e2e_read_ctpk mc md S p loc f texs S' H Hw Hn Hc), (TexDecode.decode_all_supported md texs Hs). reflexivity.
-  - rewrite (e2e_read_bch mc md S p loc f texs S' H Hw Hn Hc), (TexDecode.decode_all_supported md texs Hs). reflexivity.
+  - destruct (TexDecode.supported_f32_split _ Hs) as (Hs1 & Hx).
+    rewrite (e2e_read_ctpk mc md S p loc f texs S' H Hw Hn Hc Hx), (TexDecode.decode_all_supported md texs Hs1). reflexivity.
+  - destruct (TexDecode.supported_f32_split _ Hs) as (Hs1 & Hx).
+    rewrite (e2e_read_bch mc md S p loc f texs S' H Hw Hn Hc Hx), (TexDecode.decode_all_supported md texs Hs1). reflexivity.
   - rewrite (e2e_read_cgfx mc md S p loc f texs S' H Hw Hn Hc), (TexDecode.decode_all_supported md texs Hs). reflexivity.
   - rewrite (e2e_read_tpl mc md S p loc f texs S' H Hw Hn Hc), (TexDecode.decode_all_tpl_supported texs Hs). reflexivity.
 Qed.
